@@ -670,6 +670,13 @@ func (g *graph) compile(ctx context.Context, opt *graphCompileOptions) (*composa
 		}
 	}
 
+	// the compiled runner gets its own pre-node handlers: compiling (again, or as a sub graph, or
+	// unsuccessfully) must not change the builder or a runnable compiled earlier
+	handlerPreNode := make(map[string][]handlerPair, len(g.handlerPreNode))
+	for key, hs := range g.handlerPreNode {
+		handlerPreNode[key] = append([]handlerPair{}, hs...)
+	}
+
 	for key := range g.fieldMappingRecords {
 		// not allowed to map multiple fields to the same field
 		toMap := make(map[string]bool)
@@ -681,7 +688,7 @@ func (g *graph) compile(ctx context.Context, opt *graphCompileOptions) (*composa
 		}
 
 		// add map to input converter
-		g.handlerPreNode[key] = append(g.handlerPreNode[key], g.getNodeGenericHelper(key).inputFieldMappingConverter)
+		handlerPreNode[key] = append(handlerPreNode[key], g.getNodeGenericHelper(key).inputFieldMappingConverter)
 	}
 
 	key2SubGraphs := g.beforeChildGraphsCompile(opt)
@@ -780,7 +787,7 @@ func (g *graph) compile(ctx context.Context, opt *graphCompileOptions) (*composa
 		outputConvertStreamPair: g.outputStreamConvertPair,
 
 		preBranchHandlerManager: &preBranchHandlerManager{h: g.handlerPreBranch},
-		preNodeHandlerManager:   &preNodeHandlerManager{h: g.handlerPreNode},
+		preNodeHandlerManager:   &preNodeHandlerManager{h: handlerPreNode},
 		edgeHandlerManager:      &edgeHandlerManager{h: g.handlerOnEdges},
 	}
 
